@@ -52,9 +52,7 @@ func VerifC16_GatewayBackendRefs() {
 	maxW := nd.Param("MAXW", 1000)
 	cache := &zzC16Cache{svcs: map[string]*api.Service{}, eps: map[string]*api.Endpoints{}}
 	hc := haproxy.CreateInstance(zzLogger{}, haproxy.InstanceOptions{}).Config()
-	c := &converter{
-		options: &convtypes.ConverterOptions{}, haproxy: hc, logger: zzLogger{}, cache: cache, tracker: zzC16Tracker{},
-	}
+	c := NewGatewayConverter(&convtypes.ConverterOptions{Logger: zzLogger{}, Cache: cache, Tracker: zzC16Tracker{}}, hc, nil, nil).(*converter)
 	W := make([]int, n)
 	L := make([]int, n)
 	var refs []gatewayv1.BackendRef
